@@ -18,6 +18,8 @@ type libCtx struct {
 	b *tbuf
 	t *Target
 	g *opGen
+	// sharedMapDone: the shared-empty-map histories are value independent, run once per type
+	sharedMapDone bool
 }
 
 // pair builds the generated message and the reference holding v (transported through the wire).
@@ -236,6 +238,72 @@ func (c *libCtx) libCase(v, other *vval.Val, replay string) {
 			}
 			if got := c.canon(dstA); got != after {
 				b.Violate("C08", "clear-changes-other-message", fmt.Sprintf("after dst.Set(fd, src.Get(fd)), clearing and refilling the source's fields %v changed the destination: %s -> %s", copied, clip(after, 300), clip(got, 300)), replay)
+			}
+		}
+	}
+	// ---- a map object shared through Set while it is still EMPTY (a NewField handle, or another message's
+	// Mutable view): a later Mutable(fd) must keep handing out that same map. protoreflect leaves aliasing after Set
+	// unspecified, so this is compared only where the two reference implementations (dynamicpb, protobuf-go's own
+	// reflection over the same struct) agree with each other.
+	if !c.sharedMapDone {
+		c.sharedMapDone = true
+		for j := range S.Msgs[0].Fields {
+			f := &S.Msgs[0].Fields[j]
+			if f.Shape != vschema.Map {
+				continue
+			}
+			run := func(mk func() protoreflect.Message) (obs string) {
+				if p, pm := guard(func() {
+					m := mk()
+					fd := fdOf(m, f)
+					key := m.NewField(fd).Map()
+					_ = key
+					var k protoreflect.MapKey
+					switch fd.MapKey().Kind() {
+					case protoreflect.StringKind:
+						k = protoreflect.ValueOfString("k").MapKey()
+					case protoreflect.BoolKind:
+						k = protoreflect.ValueOfBool(true).MapKey()
+					case protoreflect.Int32Kind, protoreflect.Sint32Kind, protoreflect.Sfixed32Kind:
+						k = protoreflect.ValueOfInt32(1).MapKey()
+					case protoreflect.Int64Kind, protoreflect.Sint64Kind, protoreflect.Sfixed64Kind:
+						k = protoreflect.ValueOfInt64(1).MapKey()
+					case protoreflect.Uint32Kind, protoreflect.Fixed32Kind:
+						k = protoreflect.ValueOfUint32(1).MapKey()
+					default:
+						k = protoreflect.ValueOfUint64(1).MapKey()
+					}
+					// A: handle from NewField, stored while empty, written after a later Mutable
+					h := m.NewField(fd).Map()
+					m.Set(fd, protoreflect.ValueOfMap(h))
+					v := m.Mutable(fd).Map()
+					h.Set(k, h.NewValue())
+					obs = fmt.Sprintf("A:has=%v,len=%d,vlen=%d,vhas=%v", m.Has(fd), m.Get(fd).Map().Len(), v.Len(), v.Has(k))
+					// B: another message given this message's (emptied) Mutable view
+					m1, m2 := mk(), mk()
+					m2.Set(fd, m1.Mutable(fd))
+					w := m2.Mutable(fd).Map()
+					w.Set(k, w.NewValue())
+					obs += fmt.Sprintf(";B:m1len=%d,m2len=%d", m1.Get(fd).Map().Len(), m2.Get(fd).Map().Len())
+				}); p {
+					obs += ";panic:" + firstLine(pm)
+				}
+				return obs
+			}
+			og := run(func() protoreflect.Message { return t.Info.Proto.ProtoReflect().New() })
+			od := run(func() protoreflect.Message { return dynamicpb.NewMessage(t.Desc) })
+			os := od
+			if t.Info.Slow != nil {
+				os = run(func() protoreflect.Message { return t.Info.Slow(t.Info.Proto.ProtoReflect().New().Interface()) })
+			}
+			b.Count("shared_empty_map_cases")
+			if od != os {
+				b.Count("shared_empty_map_references_disagree")
+				continue
+			}
+			if og != od {
+				b.Violate("C08", "shared-map-detached", fmt.Sprintf("map field index %d shared through Set while empty: generated %s, references %s", j, og, od),
+					S.Line()+"\n# shared-empty-map pass type "+t.Full)
 			}
 		}
 	}
